@@ -361,6 +361,52 @@ def native_interfaces(seed):
         bad += _native_decomposed(magpy, rng)
     except Exception as e:  # pylint: disable=broad-except
         bad.append(f"decomposed evaluation raised {type(e).__name__}: {e}")
+    try:
+        bad += _native_cores(magpy, rng)
+    except Exception as e:  # pylint: disable=broad-except
+        bad.append(f"core-function comparison raised {type(e).__name__}: {e}")
+    return bad
+
+
+def _native_cores(magpy, rng):
+    """the exported core functions (magpylib.core) against the object interface for the same configuration in the source frame"""
+    import magpylib.core as core
+
+    mu0 = magpy.mu_0
+    bad = []
+    obs = np.array([(0.3, 0.2, 0.1), (1.5, 0.4, 0.2), (2.5, -1.0, 0.7), (0.1, -0.2, 1.4), (-1.2, 1.1, -0.3)])
+    n = len(obs)
+    pol = np.array((0.1, 0.2, 0.3))
+
+    def cmp(name, got, exp, rtol=1e-7):
+        sc = np.abs(exp).max() + 1e-300
+        if got.shape != exp.shape or not np.all(np.abs(got - exp) <= rtol * sc):
+            bad.append(f"{name}: the object interface differs from the core function (max relative deviation {np.abs(got - exp).max() / sc:.2e})")
+
+    # CylinderSegment: a true segment, a hollow full ring, a solid full cylinder
+    x, y, z = obs.T
+    r, phi = np.hypot(x, y), np.arctan2(y, x)
+    M = np.linalg.norm(pol) / mu0
+    phim, thm = np.arctan2(pol[1], pol[0]), np.arctan2(np.hypot(pol[0], pol[1]), pol[2])
+    for dim in ((1.0, 2.0, 1.0, 0.0, 90.0), (1.0, 2.0, 1.0, 0.0, 360.0), (0.0, 2.0, 1.0, 0.0, 360.0), (0.5, 1.5, 2.0, -180.0, 180.0)):
+        r1, r2, h, p1, p2 = dim
+        Hcy = core.magnet_cylinder_segment_Hfield(observers=np.c_[r, phi, z], dimensions=np.tile([r1, r2, np.deg2rad(p1), np.deg2rad(p2), -h / 2, h / 2], (n, 1)),
+                                                  magnetizations=np.tile([M, phim, thm], (n, 1)))
+        Hr, Hp, Hz = Hcy.T
+        exp = np.c_[Hr * np.cos(phi) - Hp * np.sin(phi), Hr * np.sin(phi) + Hp * np.cos(phi), Hz]
+        src = magpy.magnet.CylinderSegment(dimension=dim, polarization=pol)
+        cmp(f"CylinderSegment{dim}.getH", src.getH(obs), exp, rtol=1e-6)
+        cmp(f"getH('CylinderSegment', dimension={dim})", magpy.getH("CylinderSegment", obs, dimension=dim, polarization=pol), exp, rtol=1e-6)
+    # Sphere, Dipole, Triangle, Polyline, Circle
+    cmp("Sphere.getB", magpy.magnet.Sphere(diameter=1.1, polarization=pol).getB(obs), core.magnet_sphere_Bfield(observers=obs, diameters=np.full(n, 1.1), polarizations=np.tile(pol, (n, 1))))
+    cmp("Dipole.getH", magpy.misc.Dipole(moment=(1, 2, 3)).getH(obs), core.dipole_Hfield(observers=obs, moments=np.tile((1.0, 2.0, 3.0), (n, 1))))
+    V = np.array([(0, 0, 0), (1, 0, 0), (0.2, 1, 0.3)])
+    cmp("Triangle.getB", magpy.misc.Triangle(vertices=V, polarization=pol).getB(obs), core.triangle_Bfield(observers=obs, vertices=np.tile(V, (n, 1, 1)), polarizations=np.tile(pol, (n, 1))))
+    P = np.array([(0, 0, 0), (1, 0, 1), (2, 1, 1)], dtype=float)
+    Hp_ = sum(core.current_polyline_Hfield(observers=obs, segments_start=np.tile(a, (n, 1)), segments_end=np.tile(b, (n, 1)), currents=np.full(n, 1.5)) for a, b in zip(P[:-1], P[1:]))
+    cmp("Polyline.getH", magpy.current.Polyline(vertices=P, current=1.5).getH(obs), Hp_)
+    Hc = core.current_circle_Hfield(r0=np.full(n, 0.8), r=r, z=z, i0=np.full(n, 2.0)).T
+    cmp("Circle.getH", magpy.current.Circle(diameter=1.6, current=2.0).getH(obs), np.c_[Hc[:, 0] * np.cos(phi), Hc[:, 0] * np.sin(phi), Hc[:, 2]])
     return bad
 
 
